@@ -93,7 +93,11 @@ pub fn abnormal(out: &Outcome, cancel: Cancel) -> Option<Failure> {
 /// tape -> structured case: universe + problem + runtime; the rest of the tape is kept as
 /// `extra` for property-specific choices (variants, cancellation points, ...).
 pub fn decode_case(tape: &[u16], params: &Params, async_weight: u32) -> StructCase {
-    let mut t = Tape::new(tape);
+    // the first 96 values are reserved for property-specific choices so that they are
+    // populated however much of the tape the universe consumes
+    let split = tape.len().min(96);
+    let (head, tail) = tape.split_at(split);
+    let mut t = Tape::new(tail);
     let (u, problem) = gen_case(&mut t, params);
     let rt = if async_weight == 0 {
         Runtime::Sync
@@ -104,7 +108,7 @@ pub fn decode_case(tape: &[u16], params: &Params, async_weight: u32) -> StructCa
         u,
         problem,
         rt,
-        extra: t.rest().iter().copied().take(96).collect(),
+        extra: head.to_vec(),
         more: vec![],
     }
 }
